@@ -81,7 +81,9 @@ func injections(bad sgen.M, kind string) []injection {
 			func(x any) []any { return []any{ref("A"), x, ref("A")} },
 			func(x any) []any { return []any{x, ref("A"), ref("A")} },
 			func(x any) []any { return []any{ref("Tree"), ref("Tree"), x, ref("B")} },
-			func(x any) []any { return []any{ref("A"), ref("B"), ref("B"), ref("A"), obj(sgen.M{"type": "string"}), x} },
+			func(x any) []any {
+				return []any{ref("A"), ref("B"), ref("B"), ref("A"), obj(sgen.M{"type": "string"}), x}
+			},
 		} {
 			badBranch := sgen.M{"type": "object", "properties": sgen.M{"z": b()}}
 			out = append(out, injection{fmt.Sprintf("%s-branch-among-repeated-refs-%d", kw, li), root(sgen.M{kw: mk(badBranch)}, shapeDefs())})
